@@ -11,7 +11,7 @@ import vlib
 
 
 def K(i, j=0):
-    return i * 65536 + j
+    return i * 4294967296 + j
 
 
 def ue_sample(rng, hi):
